@@ -151,7 +151,7 @@ def _collapse(path):
     return re.sub(r"((?:[^/]+/){1,2}?)(?:\1)+", lambda m: "(%s)*/" % m.group(1).rstrip("/"), path + "/").rstrip("/")
 
 
-def run(ctx, rule, reviewed, floor_sites):
+def run(ctx, rule, reviewed, floor_sites, only=None):
     F = ctx.F
     rep = ctx.rep
     scope = scope_fns(F)
@@ -171,6 +171,8 @@ def run(ctx, rule, reviewed, floor_sites):
     n_children = 0
     used_reviews = set()
     for fn, params in scope:
+        if only is not None and not only(fn):
+            continue
         rep.analysed(fn)
         sites = _sites_of(F, fn, params, exec_paths, summaries)
         n_sites += len(sites)
@@ -236,7 +238,7 @@ def run(ctx, rule, reviewed, floor_sites):
                         lstr(L[1:]) or L[0][1], fn.path, (callee_def(s1["t"]) or "?").rsplit("::", 1)[-1], s1["t"]["line"], (callee_def(s2["t"]) or "?").rsplit("::", 1)[-1], s2["t"]["line"])
                 rep.fail(rule, pkey, why, s1["body"].loc(s1["t"]["line"]))
     for k in reviewed:
-        if k not in used_reviews:
+        if k not in used_reviews and only is None:
             rep.notes.setdefault("evalonce_stale_reviews", []).append(k)
     rep.floor(rule, n_sites, floor_sites, "evaluation sites in the execution visitors")
     return n_sites, n_children
